@@ -785,7 +785,8 @@ fn update_case(old: &str, new: &str, attrs: &[Attribution], author: &str, ts: u1
                     }
                     if k >= lo.len() {
                         bad = Some(json!({"line": k + 1, "no_old_line": true}));
-                    } else if eb[k].as_ref().map(|x| &x.0) != ea[k].as_ref().map(|x| &x.0) {
+                    } else if eb[k].as_ref().map_or(HUMAN, |x| x.0.as_str()) != ea[k].as_ref().map_or(HUMAN, |x| x.0.as_str()) {
+                        // (a line that is not listed is a human line; so is a listed line with author "human" and an `overrode`)
                         bad = Some(json!({"line": k + 1, "before": eb[k], "after": ea[k]}));
                     }
                 }
@@ -1269,5 +1270,341 @@ pub fn run(seed: u64, count: u64, corpus: Option<&str>, em: &mut Emitter) {
             5 => synthetic_case(&mut rng, em),
             _ => gen_projection(&mut rng, em),
         }
+    }
+}
+
+// ------------------------------------------------------------------ line-level bridge (suite c16ls)
+//
+// The checkpoint pipeline of `make_entry_for_file` on line-structured inputs: previous per-line
+// authors → line_attributions_to_attributions → attribute_unattributed_ranges("human", ts-1) →
+// update_attributions(author, ts) → attributions_to_line_attributions, read back as one author per
+// line. Compared with the Lean `LineStep.lineStep` prediction (theorem `lineStep_follows_rule`) and
+// with `Sys.checkpointAttr` on the induced content ids (theorem `lineStep_refines_checkpointAttr`).
+//
+// Generator: every line has content no other line of the case has (kept lines excepted), and every
+// non-blank line carries at least one token no other line has; new = old with lines deleted and
+// fresh lines inserted, never reordered. The line diff then has exactly one minimal alignment (all
+// common lines kept) and the token refinement of a changed hunk cannot build an inserted line out
+// of deleted lines' tokens. The REAL diff is used for the main comparison (`ok`); the real
+// transform + merge is ALSO run on the model's line-granular segments (`lsegs`).
+
+struct LsItem {
+    kind: u8, // 0 keep, 1 delete, 2 insert
+    body: String,
+    id: u64,
+}
+
+fn ls_author(n: u64) -> String {
+    if n == 0 { HUMAN.to_string() } else { format!("ai_{n}") }
+}
+
+fn ls_fresh_body(rng: &mut Rng, counter: &mut u64, used: &mut BTreeSet<String>, style: Eol) -> String {
+    let cr = match style {
+        Eol::Lf => false,
+        Eol::Crlf => true,
+        Eol::Mixed => rng.chance(1, 2),
+    };
+    for _ in 0..4 {
+        if rng.chance(1, 8) {
+            let mut b = rng.pick(&["", " ", "  ", "\t", "    ", "\u{a0}", " \t", "\u{3000}"]).to_string();
+            if cr {
+                b.push('\r');
+            }
+            if used.insert(b.clone()) {
+                return b;
+            }
+        } else {
+            break;
+        }
+    }
+    let mut s = String::new();
+    if rng.chance(1, 2) {
+        for _ in 0..1 + rng.below(3) {
+            s.push_str(rng.pick(&["  ", "    ", "\t", " "]));
+        }
+    }
+    let n = 1 + rng.below(4);
+    for k in 0..n {
+        *counter += 1;
+        s.push_str(&format!("{}{}", rng.pick(&["w", "val_", "é", "日本", "x", "naïve", "Ω"]), *counter));
+        if k + 1 < n {
+            s.push_str(rng.pick(&[" ", "  ", " = ", "(", ") ", "; ", ", ", " -> ", "\t", "::", " + "]));
+        }
+    }
+    if rng.chance(1, 3) {
+        s.push_str(rng.pick(&[";", " {", ")", ",", " ", "  ", " }", "\t"]));
+    }
+    if cr {
+        s.push('\r');
+    }
+    used.insert(s.clone());
+    s
+}
+
+fn ls_authors_of(las: &[LineAttribution], n: usize) -> Vec<String> {
+    expand_lines(las, n).into_iter().map(|x| x.map(|y| y.0).unwrap_or_else(|| HUMAN.to_string())).collect()
+}
+
+#[allow(clippy::too_many_arguments)]
+fn linestep_case(items: &[LsItem], authors: &[u64], who: u64, ts: u128, ts0: u128, tail: Option<&str>, cmp_sys: bool,
+                 merge_runs: bool, em: &mut Emitter, mut tags: Vec<String>) {
+    let old_lines: Vec<&LsItem> = items.iter().filter(|i| i.kind != 2).collect();
+    let new_lines: Vec<&LsItem> = items.iter().filter(|i| i.kind != 1).collect();
+    let old: String = old_lines.iter().map(|i| format!("{}\n", i.body)).collect();
+    let mut new: String = new_lines.iter().map(|i| format!("{}\n", i.body)).collect();
+    if let Some(t) = tail {
+        new.push_str(t);
+    }
+    let n_new = new_lines.len() + usize::from(tail.is_some());
+    let who_s = ls_author(who);
+    // what get_checkpoint_entry_for_file hands over: entries for the non-human lines (single lines, or —
+    // like INITIAL — runs of consecutive lines of one author)
+    let mut las: Vec<LineAttribution> = Vec::new();
+    let mut k = 0usize;
+    while k < authors.len() {
+        let mut e = k;
+        if merge_runs {
+            while e + 1 < authors.len() && authors[e + 1] == authors[k] {
+                e += 1;
+            }
+        }
+        if authors[k] != 0 {
+            las.push(LineAttribution::new(k as u32 + 1, e as u32 + 1, ls_author(authors[k]), None));
+        }
+        k = e + 1;
+    }
+    let req = json!({"op": "linestep",
+        "al": Value::Array(items.iter().map(|i| json!([i.kind, jtext(i.body.as_bytes()), i.id])).collect()),
+        "authors": authors, "who": who, "ts": ts as u64, "ts0": ts0 as u64, "tail": tail});
+    let witness = json!({"kind": "linestep", "old": old, "new": new, "authors": authors, "who": who_s, "ts": ts as u64});
+
+    // the real pipeline, real diff
+    let (o1, n1, l1, w1) = (old.clone(), new.clone(), las.clone(), who_s.clone());
+    let real = catch(move || {
+        let tracker = AttributionTracker::new();
+        let prev = line_attributions_to_attributions(&l1, &o1, ts0);
+        let filled = tracker.attribute_unattributed_ranges(&o1, &prev, HUMAN, ts - 1);
+        let out = tracker.update_attributions(&o1, &n1, &filled, &w1, ts).map_err(|e| e.to_string())?;
+        Ok::<_, String>((filled, attributions_to_line_attributions(&out, &n1)))
+    });
+    let mut oracles = Vec::new();
+    let (filled, real_lines) = match real {
+        Ok(Ok(x)) => x,
+        other => {
+            let msg = match other { Err(m) => m, Ok(Err(e)) => e, _ => String::new() };
+            oracles.push(oracle("no_panic", false, json!({"input": witness, "message": msg}), "panic:linestep"));
+            emit_case(em, req, json!({"err": "panic"}), oracles, tags);
+            return;
+        }
+    };
+    oracles.push(oracle("no_panic", true, Value::Null, "panic:linestep"));
+    let real_authors = ls_authors_of(&real_lines, n_new);
+
+    // the real transform + merge on the model's line-granular segments (no tail: same segments as the model)
+    let mut segs: Vec<Seg> = items.iter().map(|i| (i.kind, format!("{}\n", i.body).into_bytes())).collect();
+    let mut lsubst: Vec<(usize, usize)> = Vec::new();
+    if let Some(t) = tail {
+        segs.push((2, t.as_bytes().to_vec()));
+        if !all_ws(t.as_bytes()) {
+            lsubst.push((new.len() - t.len(), new.len())); // segment contract: non-whitespace inserts are substantive
+        }
+    }
+    let mut sorted = filled.clone();
+    sorted.sort_by(|a, b| (a.start, a.end, &a.author_id, a.ts).cmp(&(b.start, b.end, &b.author_id, b.ts)));
+    let (s2, w2, n2) = (segs.clone(), who_s.clone(), new.clone());
+    let lseg = catch(move || {
+        let out = vh::merge_attributions(vh::transform_parts(&s2, &lsubst, &[], &sorted, &w2, ts));
+        attributions_to_line_attributions(&out, &n2)
+    });
+    let lseg_authors = match &lseg {
+        Ok(l) => Some(ls_authors_of(l, n_new)),
+        Err(_) => {
+            oracles.push(oracle("no_panic", false, json!({"input": witness, "where": "transform on line segments"}), "panic:linestep-lsegs"));
+            None
+        }
+    };
+
+    // did the real diff choose the intended alignment? (kept lines map to their pre-image, no moves)
+    let (o3, n3) = (old.clone(), new.clone());
+    let parts = catch(move || vh::diff_parts(&o3, &n3).map_err(|e| e.to_string()));
+    let mut intended = false;
+    if let Ok(Ok((rsegs, _subst, moves))) = &parts {
+        let lay = layout(rsegs);
+        intended = moves.is_empty();
+        let (mut op_, mut np_) = (0usize, 0usize);
+        for it in items {
+            let len = it.body.len() + 1;
+            match it.kind {
+                0 => {
+                    let hit = lay.segs.iter().any(|(op, so, sn, sl)| *op == 0 && *sn <= np_ && np_ + len <= sn + sl && so + (np_ - sn) == op_);
+                    if !hit {
+                        intended = false;
+                    }
+                    op_ += len;
+                    np_ += len;
+                }
+                1 => op_ += len,
+                _ => np_ += len,
+            }
+        }
+    }
+    tags.push(if intended { "alignment:as-intended" } else { "alignment:other" }.into());
+
+    // the line rule, computed here independently of Lean and of the tracker
+    let mut rule: Vec<String> = Vec::new();
+    let mut oi = 0usize;
+    for it in items {
+        match it.kind {
+            0 => {
+                rule.push(ls_author(*authors.get(oi).unwrap_or(&0)));
+                oi += 1;
+            }
+            1 => oi += 1,
+            _ => rule.push(who_s.clone()),
+        }
+    }
+    if intended && tail.is_none() && cmp_sys {
+        let bad_keep = (0..rule.len()).find(|&j| new_lines[j].kind == 0 && real_authors[j] != rule[j]);
+        let bad_ins = (0..rule.len()).find(|&j| new_lines[j].kind == 2 && real_authors[j] != rule[j]);
+        oracles.push(oracle("kept_line_keeps_author", bad_keep.is_none(),
+            json!({"input": witness, "line": bad_keep.map(|j| j + 1), "got": real_authors, "want": rule}), "linestep:kept-line-changed-author"));
+        oracles.push(oracle("inserted_line_is_reporters", bad_ins.is_none(),
+            json!({"input": witness, "line": bad_ins.map(|j| j + 1), "got": real_authors, "want": rule}), "linestep:inserted-line-not-reporters"));
+    }
+    let mut imp = json!({"ok": real_authors});
+    if !intended {
+        // the prediction speaks about the intended alignment only
+        imp = json!({});
+    }
+    if let Some(l) = lseg_authors {
+        imp["lsegs"] = json!(l);
+    }
+    if intended && cmp_sys {
+        imp["sys"] = json!(real_authors);
+        imp["pre"] = json!({"alOk": true, "len": true, "unique": true, "fresh": true});
+    }
+    emit_case(em, req, imp, oracles, tags);
+}
+
+fn gen_linestep(rng: &mut Rng, em: &mut Emitter) {
+    let mut tags: Vec<String> = vec!["linestep".into()];
+    let style = gen_style(rng);
+    tags.push(match style { Eol::Lf => "eol:lf", Eol::Crlf => "eol:crlf", Eol::Mixed => "eol:mixed" }.into());
+    let mut counter = 0u64;
+    let mut used: BTreeSet<String> = BTreeSet::new();
+    let n_old = match rng.below(12) {
+        0 => 0,
+        1 => 1,
+        _ => 2 + rng.size(6, 14) as usize,
+    };
+    let old_bodies: Vec<String> = (0..n_old).map(|_| ls_fresh_body(rng, &mut counter, &mut used, style)).collect();
+    let mut authors: Vec<u64> = Vec::new();
+    while authors.len() < n_old {
+        let a = rng.pick(&[0u64, 0, 1, 2, 3]);
+        for _ in 0..1 + rng.below(3) {
+            if authors.len() < n_old {
+                authors.push(a);
+            }
+        }
+    }
+    let mode = rng.below(10);
+    let mut items: Vec<LsItem> = Vec::new();
+    let mut fresh_id = 1000u64;
+    let mut ins = |items: &mut Vec<LsItem>, rng: &mut Rng, counter: &mut u64, used: &mut BTreeSet<String>, n: u64| {
+        for _ in 0..n {
+            fresh_id += 1;
+            items.push(LsItem { kind: 2, body: ls_fresh_body(rng, counter, used, style), id: fresh_id });
+        }
+    };
+    for (i, b) in old_bodies.iter().enumerate() {
+        match mode {
+            0 | 2 => items.push(LsItem { kind: 0, body: b.clone(), id: 100 + i as u64 }),
+            1 => items.push(LsItem { kind: 1, body: b.clone(), id: 100 + i as u64 }),
+            _ => {
+                if rng.chance(1, 4) {
+                    let n = 1 + rng.below(2);
+                    ins(&mut items, rng, &mut counter, &mut used, n);
+                }
+                let kind = if rng.chance(3, 4) { 0 } else { 1 };
+                items.push(LsItem { kind, body: b.clone(), id: 100 + i as u64 });
+            }
+        }
+    }
+    match mode {
+        0 => tags.push("edit:identity".into()),
+        1 => {
+            let n = rng.below(4);
+            ins(&mut items, rng, &mut counter, &mut used, n);
+            tags.push("edit:replace-all".into());
+        }
+        2 => {
+            let n = 1 + rng.below(3);
+            ins(&mut items, rng, &mut counter, &mut used, n);
+            tags.push("edit:append".into());
+        }
+        _ => {
+            if rng.chance(1, 3) {
+                let n = 1 + rng.below(2);
+                ins(&mut items, rng, &mut counter, &mut used, n);
+            }
+            tags.push("edit:mixed".into());
+        }
+    }
+    let (nk, nd, ni) = (items.iter().filter(|i| i.kind == 0).count(), items.iter().filter(|i| i.kind == 1).count(), items.iter().filter(|i| i.kind == 2).count());
+    let bucket = |n: usize| match n { 0 => "0", 1 => "1", 2..=4 => "2-4", _ => ">4" };
+    tags.push(format!("kept={}", bucket(nk)));
+    tags.push(format!("deleted={}", bucket(nd)));
+    tags.push(format!("inserted={}", bucket(ni)));
+    if items.iter().any(|i| i.kind == 2 && all_ws(i.body.as_bytes())) {
+        tags.push("inserted:whitespace-only-line".into());
+    }
+    if items.windows(2).any(|w| (w[0].kind == 1 && w[1].kind == 2) || (w[0].kind == 2 && w[1].kind == 1)) {
+        tags.push("hunk:replace".into());
+    }
+    let who = rng.pick(&[0u64, 0, 1, 2, 3, 4]);
+    tags.push(if who == 0 { "who:human" } else { "who:ai" }.into());
+    let ts0 = 42u128; // INITIAL_ATTRIBUTION_TS
+    let ts = match rng.below(4) {
+        0 => 44,
+        1 => 45 + rng.below(50) as u128,
+        2 => 1_000 + rng.below(1_000_000) as u128,
+        _ => 1_700_000_000_000 + rng.below(1_000_000_000) as u128,
+    };
+    let merge_runs = rng.chance(1, 2);
+    if merge_runs {
+        tags.push("priors:runs-as-ranges".into());
+    }
+    linestep_case(&items, &authors, who, ts, ts0, None, true, merge_runs, em, tags);
+}
+
+fn linestep_corpus_case(v: &Value, em: &mut Emitter) {
+    let items: Vec<LsItem> = v["al"].as_array().map(|a| a.iter().map(|x| LsItem {
+        kind: x[0].as_u64().unwrap_or(0) as u8,
+        body: String::from_utf8_lossy(&bytes_of(&x[1])).to_string(),
+        id: x[2].as_u64().unwrap_or(0),
+    }).collect()).unwrap_or_default();
+    let authors: Vec<u64> = v["authors"].as_array().map(|a| a.iter().map(|x| x.as_u64().unwrap_or(0)).collect()).unwrap_or_default();
+    let tail = v["tail"].as_str();
+    let name = v["name"].as_str().unwrap_or("");
+    linestep_case(&items, &authors, v["who"].as_u64().unwrap_or(0), v["ts"].as_u64().unwrap_or(100) as u128, 42, tail,
+        v["sys"].as_bool().unwrap_or(true), false, em, vec![format!("corpus:linestep:{name}")]);
+}
+
+pub fn run_linestep(seed: u64, count: u64, corpus: Option<&str>, em: &mut Emitter) {
+    if std::env::var_os("GIT_AI_DEBUG").is_none() {
+        unsafe { std::env::set_var("GIT_AI_DEBUG", "0") };
+    }
+    if let Some(path) = corpus {
+        if let Ok(f) = std::fs::File::open(path) {
+            for line in std::io::BufReader::new(f).lines().map_while(Result::ok) {
+                if let Ok(v) = serde_json::from_str::<Value>(&line) {
+                    linestep_corpus_case(&v, em);
+                }
+            }
+        }
+    }
+    let mut rng = Rng::new(seed ^ 0xC16_15);
+    for _ in 0..count {
+        gen_linestep(&mut rng, em);
     }
 }
